@@ -1,7 +1,7 @@
 (* C02 — no dangling references: every emitted reference resolves to an emitted row.
    Model: theories/Interp.v.  Proofs: proofs/RefsP.v (on top of proofs/IdsP.v, C01).      *)
 From Coq Require Import ZArith List Permutation.
-From SFV Require Import Base Interp.
+From SFV Require Import Base RandRange RowHistory Interp.
 From SFV.P Require Import InterpP IdsP RefsP ContP.
 Import ListNotations. Open Scope Z_scope. Open Scope string_scope.
 
@@ -21,7 +21,7 @@ Print Assumptions C02_no_dangling.
    reference names an id issued before the run started, or a row written by this run. *)
 Theorem C02_no_dangling_run :
   forall e stmts c k s0 s,
-    start_ok s0 -> Bd s0 -> iterations k e stmts c s0 = Ok s ->
+    start_ok s0 -> Bd s0 -> V s0 -> iterations k e stmts c s0 = Ok s ->
     forall row n T i, In row (out s) -> In (n, ORef T i) (snd row) -> hidden T = false ->
       (1 <= i <= last_id s0 T) \/ exists row', In row' (out s) /\ fst row' = T /\ orow_id row' = [i].
 Proof. exact no_dangling_run. Qed.
@@ -29,8 +29,7 @@ Print Assumptions C02_no_dangling_run.
 
 Theorem C02_no_dangling_continued :
   forall r k s c s',
-    Bd s -> save s = Ok c ->
-    (forall T, 0 <= match lookup T (k_ids c) with Some z => z | None => 0 end) ->
+    Bd s -> V s -> save s = Ok c ->
     run_one r k (Some c) = Ok s' ->
     forall row n T i, In row (out s') -> In (n, ORef T i) (snd row) -> hidden T = false ->
       (1 <= i <= last_id s T) \/ exists row', In row' (out s') /\ fst row' = T /\ orow_id row' = [i].
@@ -51,9 +50,17 @@ Print Assumptions C02_no_dangling_history.
 (* every id held by a row, a forward-reference slot or an already written reference has been
    issued by the table's counter — preserved by every task of the evaluator *)
 Theorem C02_ids_issued_invariant :
-  forall fuel e tk s s' r, run fuel e tk s = Ok (s', r) -> J s -> J s' /\ mono s s'.
+  forall fuel e tk s s' r, run fuel e tk s = Ok (s', r) -> J s -> V s ->
+    J s' /\ mono s s' /\ V s' /\ val_ok s' (ret_value r).
 Proof. exact run_J. Qed.
 Print Assumptions C02_ids_issued_invariant.
+
+(* random_reference only ever hands out issued ids: the row history stays within the id
+   counters (hist_ok, part of V), for targets by table name and by nickname, every draw *)
+Theorem C02_random_reference_issued :
+  forall e target s s' v, random_reference e target s = Ok (s', v) -> V s -> V s' /\ val_ok s' v.
+Proof. exact random_reference_V. Qed.
+Print Assumptions C02_random_reference_issued.
 
 (* a forward reference whose target is never created makes the run fail *)
 Theorem C02_unfulfilled_fails :
@@ -70,7 +77,7 @@ Example C02_ex :
     [SObj (Tpl "A" None (Some (FLitInt 2)) false [("b", FRef "B"); ("c", FRef "cc")]
              [SObj (Tpl "D" None None false [("p", FRef "A"); ("pb", FRef "A.b")] [])]);
      SObj (Tpl "B" None None false [] []);
-     SObj (Tpl "C" (Some "cc") None false [] [])]) 1
+     SObj (Tpl "C" (Some "cc") None false [] [])] []) 1
   = Ok [("A", [("id", OInt 1); ("b", ORef "B" 1); ("c", ORef "C" 1)]);
         ("D", [("id", OInt 1); ("p", ORef "A" 1); ("pb", ORef "B" 1)]);
         ("A", [("id", OInt 2); ("b", ORef "B" 1); ("c", ORef "C" 1)]);
@@ -81,6 +88,18 @@ Proof. vm_compute. reflexivity. Qed.
 Example C02_ex_unfulfilled :
   run_rows (mkRecipe 3 []
     [SObj (Tpl "A" None None false [("b", FRef "B")] []);
-     SObj (Tpl "B" None (Some (FLitInt 0)) false [] [])]) 1
+     SObj (Tpl "B" None (Some (FLitInt 0)) false [] [])] []) 1
   = Err (DGE "references-not-fulfilled").
+Proof. vm_compute. reflexivity. Qed.
+
+(* random references by table name and by nickname (a nickname of a friend template), two
+   iterations, draws 1,0,0,0: every target is a row of the same output *)
+Example C02_ex_random :
+  run_rows (mkRecipe 3 []
+    [SObj (Tpl "A" None (Some (FLitInt 2)) false [] [SObj (Tpl "K" (Some "kid") None false [] [])]);
+     SObj (Tpl "P" None None false [("r", FRandRef "A"); ("q", FRandRef "kid")] [])] [1; 0; 0; 0]) 2
+  = Ok [("A", [("id", OInt 1)]); ("K", [("id", OInt 1)]); ("A", [("id", OInt 2)]); ("K", [("id", OInt 2)]);
+        ("P", [("id", OInt 1); ("r", ORef "A" 2); ("q", ORef "K" 1)]);
+        ("A", [("id", OInt 3)]); ("K", [("id", OInt 3)]); ("A", [("id", OInt 4)]); ("K", [("id", OInt 4)]);
+        ("P", [("id", OInt 2); ("r", ORef "A" 3); ("q", ORef "K" 3)])].
 Proof. vm_compute. reflexivity. Qed.
